@@ -142,6 +142,29 @@ def repair_phase(ctx, csim, files, magic, dirs):
                 if not ok:
                     viol.append({"sig": "recreated-file-layout", "detail": "[%s] file re-created over %s is %s bytes and decodes to %s, expected 72 bytes holding %s" % (dname, name, kv["len"], dec, want), "replay": keep()})
         st["daemon_umask"] = "%03o" % um
+        # ... and the same start-ups while the file system fills up (the k-th write to the file fails)
+        sub = [p for p, (name, content, acc, cls) in zip(rpaths, rmeta) if name in ("absent", "trunc-00", "trunc-08", "trunc-16", "trunc-40", "all-zero-72", "magic-byte0-flipped", "ver1-gen0", "trunc-72", "size-71")]
+        pf = run_list(ctx, csim, ["repairfail", "--list", "{list}"], sub, umask=um)
+        ff = {"started": 0, "refused": 0, "failures_injected": 0}
+        if pf.returncode != 0:
+            viol.append({"sig": "repair-crash", "detail": "[%s] start-up with failing writes exited %d: %s" % (dname, pf.returncode, pf.stderr[-300:]), "replay": ""})
+        for ln in pf.stdout.splitlines():
+            tok = ln.split()
+            kv = dict(t.split("=", 1) for t in tok[1:] if "=" in t)
+            evaluations += 1
+            ff["failures_injected"] += int(kv.get("injected", 0))
+            if tok[0] == "REFUSED":
+                ff["refused"] += 1
+            elif tok[0] == "PANIC":
+                viol.append({"sig": "startup-panics-on-write-error", "detail": "[%s] start-up over %s with write() failing (errno %s) from write #%s on: panic" % (dname, os.path.basename(sub[int(kv["file"])]), kv["errno"], kv["after"]), "replay": ""})
+            else:
+                ff["started"] += 1
+                hdr = bytes.fromhex(kv["header"])
+                ok_hdr = len(hdr) == 16 and hdr[:8] == magic and struct.unpack_from("=I", hdr, 8)[0] >= 72 and struct.unpack_from("=H", hdr, 12)[0] != 0
+                if kv["A"] != "same" or not ok_hdr or int(kv["len"]) < 72:
+                    viol.append({"sig": "started-on-a-file-it-could-not-write", "detail": "[%s] start-up over %s with write() failing (errno %s) from write #%s on (%s failures injected): the daemon started and published all the same; a new client then: %s; file length %s, header %s (magic/size/version must be as documented)" % (
+                        dname, os.path.basename(sub[int(kv["file"])]), kv["errno"], kv["after"], kv["injected"], kv["A"], kv["len"], kv["header"]), "replay": ""})
+        st["startups_with_failing_writes"] = ff
         repair_stats[dname] = st
         if len(samples) < 5:
             samples.append({"repair_dir": dname, "line": lines[16][:300]})
